@@ -82,6 +82,7 @@ def run(ctx):
     runs.append(run_replay(ctx, "gen_nodedb_b.cfg", 12 if q else 1))
     runs.append(run_replay(ctx, "gen_nodedb_a.cfg", 60 if q else 3))
     runs.append(run_replay(ctx, "gen_nodedb_c.cfg", 1))          # up to four competing candidates in one version
+    runs.append(run_replay(ctx, "gen_nodedb_d.cfg", 1))          # one line of versions 0..3 over three keys, single writes
     runs.append(run_replay(ctx, "gen_nodedb_b.cfg", 300 if q else 40, gated=True))
     for _, s in runs:
         verdicts(ctx, s)
